@@ -176,7 +176,7 @@ PROPERTIES = {
     },
     "C19": {
         "runs": {
-            "quick": [H("HarnessC19a", b(N=4, L=4), sample_every=100), H("HarnessC19a", b(N=3, L=3, BF=3))],
+            "quick": [H("HarnessC19a", b(N=4, L=4), sample_every=100), H("HarnessC19a", b(N=3, L=3, BF=3)), H("HarnessC19a", b(N=4, L=3, FMT=1), sample_every=20), H("HarnessC19a", b(N=4, L=3, FMT=2), sample_every=20)],
             "thorough": [H("HarnessC19a", b(N=4, L=4), sample_every=300), H("HarnessC19a", b(N=3, L=3, BF=3))],
         },
         "must_reach": ["C19.rejected.unknown-format", "C19.rejected.layer-below-height", "C19.rejected.top-missing", "C19.rejected.count-mismatch", "C19.rejected.not-ascending", "C19.rejected.not-ascending-under-configured-order", "C19.rejected.tie-under-configured-order", "C19.rejected.undecodable"],
